@@ -53,7 +53,8 @@ def all_cases():
     cases = []
     for c, checks in REVERTS.items():
         cases.append((f"revert-{c}", f"{VERIF}/seeded/fix-reverts/revert_{c}.diff", checks))
-    for d in sorted(glob.glob(f"{VERIF}/seeded/C*")):
+    # second-round seeds (C/D) first, then the first round: the later a seed was made, the fewer checks it has seen
+    for d in sorted(glob.glob(f"{VERIF}/seeded/C*"), key=lambda d: (d[-1] in "AB", d)):
         meta = json.load(open(f"{d}/meta.json"))
         patch = f"{d}/patch_rebased.diff" if os.path.exists(f"{d}/patch_rebased.diff") else f"{d}/patch.diff"
         cases.append((os.path.basename(d), patch, meta["checks_run"]))
@@ -77,7 +78,9 @@ def report():
     for name, _, _ in all_cases():
         r = res.get(name)
         if not r:
-            out.append(f"| {name} | (not run) | | | |")
+            meta = f"{VERIF}/seeded/{name}/meta.json"
+            det = json.load(open(meta)).get("detection", "") if os.path.exists(meta) else ""
+            out.append(f"| {name} | (not re-run at this HEAD; when stored: {det}) | | | |")
             continue
         rows = "; ".join(f"{c}: rc={rc}, {v} violations, {s}s" for c, rc, v, s in r["rows"])
         out.append(f"| {name} | {r['result']} | {rows} | {r['repo_head']} | {r['verif_head']} |")
